@@ -18,6 +18,18 @@ func checkC02(c *Ctx) {
 	c.Decides("ID-GIVEN: every node (NewNode) and branch (ConnectNodes) a reader creates receives SetId in the statement list that creates it (the ids index per-node and per-branch tables of the library)")
 	c.idGiven("ID-GIVEN", c.AllFuncs("io/newick", "io/phyloxml", "io/nextstrain"), "Every delivered tree can be traversed, indexed and written back without crashing")
 	c.Floor("ID-GIVEN", 6)
+	c.Decides("IDX-IMPLIED: in the readers, where a constant index x[k] sits on a path that tests len(x), the tests taken imply len(x) > k; ERR-FALLTHROUGH: in the readers and in package tree, when a repository call hands back (pointer/map/interface, error) and the `if err != nil` that follows does not leave, the value is not used afterwards")
+	{
+		readers := c.AllFuncs(readerPkgs...)
+		sites, _ := c.idxImplied("IDX-IMPLIED", readers, "never panics")
+		c.Trivial("IDX-IMPLIED", "scan", 0, fmt.Sprintf("%d constant indexes under a length test in the readers", sites))
+		s2, _ := c.errFallthrough("ERR-FALLTHROUGH", append(append([]*FuncInfo{}, readers...), c.AllFuncs("tree")...), "never panics")
+		if s2 < 3 {
+			c.Undecided("ERR-FALLTHROUGH", "scan", 0, fmt.Sprintf("only %d `v, err := f(); if err != nil` sites seen", s2))
+		} else {
+			c.Trivial("ERR-FALLTHROUGH", "scan", 0, fmt.Sprintf("%d `v, err := f(); if err != nil` sites, every error branch leaves or the value is not used after it", s2))
+		}
+	}
 	c.Decides("TREE-ON-SUCCESS (go/cfg): the Parse function of a reader with a named tree result never returns with a nil error before that result is assigned (the caller always receives a tree or an error)")
 	for _, pk := range []string{"io/newick", "io/nexus", "io/phyloxml", "io/nextstrain"} {
 		c.treeOnSuccess("TREE-ON-SUCCESS", c.Func(pk, "Parser", "Parse"), "reading terminates and either reports an error or delivers trees")
